@@ -7,6 +7,13 @@ HERE = os.path.dirname(os.path.dirname(os.path.abspath(__file__)))
 
 # id -> (category, technique, text, note, design_ref)
 CLAIMED = {
+    "C14": (
+        "exploration",
+        "exhaustive enumeration of operation classes x parameter kinds x dagger x mode order, of short sequences, option combinations and TDM programs, through the real writers and readers of both IRs and generate_code, compared in a normal form and by reference maps",
+        "24 real-parameter operation slots x 11 parameter kinds (int, float, negative, tiny, numpy scalar, pi/3, free symbol, expression of free symbols, measured symbol, expressions of measured / mixed symbols) x dagger x two mode orders; 28 fixed operations (matrix-valued, Ket/DensityMatrix, Catstate, GKP, measurements with select / dark_counts); all sequences up to length 2 (3) over 9 letters (feed-forward, post-selection, daggers, multi-mode measurements); name/target/shots/cutoff_dim combinations; TDM programs (3 layouts x 2 lengths x 2 shifts). Each is written with to_blackbird().serialize() and to_xir().serialize(), re-loaded with sf.io.loads, and via generate_code: same normal form (class, parameters, modes in order, select, dark_counts, dagger - a daggered gate of a one-parameter family may be written as the gate with negated first parameter), same options, same reference map.",
+        "A writer or reader that raises is counted, not reported (many symbolic cases raise on reading: see evidence stats). Four recorded findings (free symbols become strings in Blackbird; measured symbols of measurement angles become strings in XIR; MZgate.H written as MZgate(-phi_in)).",
+        "DESIGN.md section 4 (C14)",
+    ),
     "C15": (
         "exploration",
         "exhaustive enumeration of programs over a letter alphabet, each executed at several hbar values with unit-rescaled parameters on every simulator; differential oracle in the configuration",
